@@ -141,7 +141,9 @@ VerdictKinds(t) ==
      IN IF ~(oN.n = t.L + 1 /\ Len(oN.v) = oN.n /\ oP.n = np /\ Len(oP.v) = np /\ oNP.n = t.L + 1 + np
              /\ Len(oNP.v) = oNP.n) THEN "REJECT KindsLength" ELSE
         IF ~(oNP.v = oN.v \o oP.v /\ oDef.v = oNP.v) THEN "REJECT KindsConcat" ELSE
-        IF ~(oN.v = oN0.v /\ oP.v = oP0.v) THEN "REJECT KindsSame" ELSE
+        \* the selection hands out the values of the two dedicated routines - the same numbers, not necessarily the same bits
+        \* (a front end may compute them along another route)
+        IF ~(Len(oN0.v) = Len(oN.v) /\ Len(oP0.v) = Len(oP.v) /\ SameValues(oN.v, oN0.v, 0) /\ SameValues(oP.v, oP0.v, 0)) THEN "REJECT KindsSame" ELSE
         IF Len(t.kinds) >= 7 /\ (t.kinds[7].exc # "" \/ t.kinds[7].v # oNP.v) THEN "REJECT KindsSpelling" ELSE
         IF PDegreeAsBuilt(t.L) # PDegreeDeclared(t.L) THEN "ACCEPT drift=PCapDegree22" ELSE "ACCEPT"
 
